@@ -171,3 +171,168 @@ def bulk_history(rng, n_items, profile='full'):
         t['now'] = now
         now += rng.choice([0, 1, 10])
     return {'cfg': cfg, 'ops': ops + tail, 'state_every': 50}
+
+
+# ---------------------------------------------------------------------------
+# C01: value round trips
+
+ALPHA = ['a', '\r', '\n', '\0', '\x85', ' ', '\U0001F600', '\ud800']
+
+
+def c01_values(rng, mfs, disk, n_random=6):
+    m = max(mfs, 1)
+    lens = sorted({0, 1, max(m - 1, 0), m, m + 1, 2 * m})
+    vals = []
+    for L in lens:
+        if L > 70000:
+            continue
+        vals.append('a' * L)
+        vals.append(''.join(rng.choice(ALPHA[:-1]) for _ in range(L)))
+        if disk == 'pickle':
+            vals.append(b'\x00\xff\r\n'[:1] * L)
+            vals.append(bytes(rng.randrange(256) for _ in range(min(L, 300))) + b'z' * max(0, L - 300))
+        vals.append(list(range(L // 3)))
+    vals += ['\ud800', 'x\ud800' * m, 'ok' * m + '\udfff']      # lone surrogates: inline and file-sized
+    vals += [0, -1, 2 ** 63 - 1, -2 ** 63, 2 ** 63, -2 ** 63 - 1, 2 ** 200,
+             0.0, -0.0, 1.5, float('inf'), float('-inf'), float('nan'), 5e-324, 1.7976931348623157e308,
+             None, True, False, [], {}, {'k': [1, 2.5, None, 'x']}, [[1, [2, [3]]]] * 3]
+    if disk == 'pickle':
+        vals += [(1, 'a', None), (), ((1, 2), (3, (4,))), frozenset([1]), b'', bytearray(b'ab'), 1 + 2j,
+                 {'a': (1, 2)}, struct_nan()]
+    return vals
+
+
+def struct_nan():
+    import struct
+    # a NaN with a payload and the sign bit set
+    return struct.unpack('>d', bytes.fromhex('fff8000000000123'))[0]
+
+
+def c01_history(rng, cfg, v, stream=False):
+    now = 1000
+    ops = []
+    k = rng.choice(['k', 7, b'kb', (1, 'x'), None]) if cfg['disk'] == 'pickle' else rng.choice(['k', 7, 'zz'])
+    st = {'m': rng.choice(['set', 'add']), 'now': now, 'k': k, 'v': v, 'ttl': rng.choice([None, 100]),
+          'tag': rng.choice([None, 't'])}
+    if stream:
+        st['read'] = 1
+    ops.append(st)
+    if not (stream and cfg['disk'] == 'json'):
+        # (a raw stream stored under JSONDisk is only meant to be read back as a stream)
+        ops.append({'m': 'get', 'now': now, 'k': k, 'et': rng.choice([0, 1]), 'tg': rng.choice([0, 1])})
+        ops.append({'m': 'getitem', 'now': now, 'k': k})
+    if stream or (cfg['disk'] == 'pickle' and isinstance(v, bytes)):
+        ops.append({'m': 'read', 'now': now, 'k': k})
+        ops.append({'m': 'get', 'now': now, 'k': k, 'read': 1})
+    if not stream or cfg['disk'] == 'pickle':
+        ops.append({'m': 'peekitem', 'now': now, 'last': 1})
+        ops.append({'m': 'pop', 'now': now, 'k': k})
+        ops.append({'m': 'get', 'now': now, 'k': k})
+        pfx = rng.choice([None, 'q'])
+        p = {'m': 'push', 'now': now, 'v': v, 'prefix': pfx, 'ttl': None, 'tag': None}
+        if stream:
+            p['read'] = 1
+        ops.append(p)
+        ops.append({'m': 'peek', 'now': now, 'prefix': pfx})
+        ops.append({'m': 'pull', 'now': now, 'prefix': pfx})
+        ops.append({'m': 'pull', 'now': now, 'prefix': pfx})
+    ops.append({'m': 'len', 'now': now})
+    return {'cfg': cfg, 'ops': ops, 'state_every': 1}
+
+
+def c01_histories(rng, tier):
+    hists = []
+    cfgs = []
+    mfss = [0, 1, 16, 32768] if tier == 'thorough' else [0, 1, 16]
+    protos = [0, 1, 2, 3, 4, 5]
+    for mfs in mfss:
+        for disk in ('pickle', 'json'):
+            ps = protos if (disk == 'pickle' and (tier == 'thorough' or mfs == 16)) else [rng.choice(protos)]
+            for proto in ps:
+                cfgs.append({'mfs': mfs, 'disk': disk, 'proto': proto, 'policy': 'lrs', 'cull': 10, 'stats': 0})
+    if tier == 'quick':
+        cfgs.append({'mfs': 32768, 'disk': 'pickle', 'proto': 5, 'policy': 'lrs', 'cull': 10, 'stats': 0})
+    for cfg in cfgs:
+        vals = c01_values(rng, cfg['mfs'], cfg['disk'])
+        if tier == 'quick' and cfg['mfs'] > 1000:
+            vals = rng.sample(vals, 12) + ['t' * 32767, 't' * 32768, '\r\n' * 16384]
+        for v in vals:
+            if cfg['disk'] == 'json':
+                try:
+                    import json
+                    json.dumps(v)
+                except Exception:
+                    continue
+                if isinstance(v, (tuple, bytes)):
+                    continue
+            hists.append(c01_history(rng, dict(cfg), v))
+        for b in (b'', b'stream-bytes', b'\r\n\x00' * 30):
+            hists.append(c01_history(rng, dict(cfg), b, stream=True))
+    return hists
+
+
+# ---------------------------------------------------------------------------
+# C02: pairs of keys
+
+def c02_keys(disk):
+    import struct
+    sub = struct.unpack('>d', bytes.fromhex('0000000000000001'))[0]
+    ks = [
+        0, 1, -1, 2 ** 53, 2 ** 53 + 1, 2 ** 63 - 1, -2 ** 63, 2 ** 63, -2 ** 63 - 1, 2 ** 64,
+        0.0, -0.0, 1.0, -1.0, 1.5, float(2 ** 53), float(2 ** 53 + 2), float(2 ** 63), -float(2 ** 63),
+        float('inf'), float('-inf'), sub, 1e300,
+        '', 'a', 'b', 'a\x00', '1', 'é', '\U0001F600',
+        None, True, False,
+    ]
+    if disk == 'pickle':
+        ks += [b'', b'a', b'1', b'\x80', (), (1,), (1.0,), (1, 2), ('a', b'a'), ((1, 2), (3,)), (None,),
+               frozenset([1])]
+    else:
+        ks += [[1], [1.0], [1, 2], {'a': 1}, 'a b']
+    return ks
+
+
+def c02_history(cfg, k1, k2, codec_extra=None):
+    now = 1000
+    ops = [
+        {'m': 'set', 'now': now, 'k': k1, 'v': 'A', 'ttl': None, 'tag': None},
+        {'m': 'set', 'now': now, 'k': k2, 'v': 'B', 'ttl': None, 'tag': None},
+        {'m': 'len', 'now': now},
+        {'m': 'get', 'now': now, 'k': k1},
+        {'m': 'get', 'now': now, 'k': k2},
+        {'m': 'contains', 'now': now, 'k': k1},
+        {'m': 'iter', 'now': now}, {'m': 'riter', 'now': now},
+        {'m': 'iterkeys', 'now': now}, {'m': 'riterkeys', 'now': now},
+        {'m': 'peekitem', 'now': now, 'last': 1},
+        {'m': 'delete', 'now': now, 'k': k1},
+        {'m': 'contains', 'now': now, 'k': k2},
+        {'m': 'len', 'now': now},
+    ]
+    return {'cfg': cfg, 'ops': ops, 'state_every': 1}
+
+
+def c02_histories(rng, tier):
+    hists = []
+    for disk in ('pickle', 'json'):
+        ks = c02_keys(disk)
+        protos = [0, 1, 2, 3, 4, 5] if disk == 'pickle' else [5]
+        pairs = [(a, b) for a in ks for b in ks]
+        if tier == 'quick':
+            # every pair once, protocol varied over the pairs
+            for i, (a, b) in enumerate(pairs):
+                cfg = {'mfs': 32768, 'disk': disk, 'proto': protos[i % len(protos)], 'policy': 'lrs', 'cull': 10, 'stats': 0}
+                hists.append(c02_history(cfg, a, b))
+        else:
+            for proto in protos:
+                for (a, b) in pairs:
+                    cfg = {'mfs': 32768, 'disk': disk, 'proto': proto, 'policy': 'lrs', 'cull': 10, 'stats': 0}
+                    hists.append(c02_history(cfg, a, b))
+    # a bytes key equal to the serialized form of another key
+    import pickle, pickletools
+    for proto in range(6):
+        for other in (None, (1, 2), True, 2 ** 64):
+            pk = pickletools.optimize(pickle.dumps(other, protocol=proto))
+            cfg = {'mfs': 32768, 'disk': 'pickle', 'proto': proto, 'policy': 'lrs', 'cull': 10, 'stats': 0}
+            hists.append(c02_history(cfg, other, pk))
+            hists.append(c02_history(cfg, pk, other))
+    return hists
